@@ -3,6 +3,7 @@
 //
 
 #include "LookaheadSMTSolver.h"
+#include <common/VerifTrace.h>
 #include "ResolutionProof.h"
 
 namespace opensmt {
@@ -86,6 +87,7 @@ lbool LookaheadSMTSolver::laPropagateWrapper() {
             vec<Lit> out_learnt;
             int out_btlevel;
             analyze(cr, out_learnt, out_btlevel);
+            VERIF_CLAUSE("l", "", out_learnt, out_learnt.size());
             // Backtracking back to the second best decision level in the clause
             cancelUntil(out_btlevel);
             assert(value(out_learnt[0]) == l_Undef);
